@@ -187,7 +187,9 @@ def _coarse(case):
     if not diffs:
         return False
     p = 24 if case.scalar == "f32" else 53
-    return max(abs(c) for c in cs) >= min(diffs) * 2.0 ** (p - 5)
+    # (M8) the admissible coordinates have a hole around zero: a split coordinate of magnitude below 2^-142 is rounded to zero by
+    # mitigate_underflow_for_coordinate, an error of up to 2^-142 -- coarse when the coordinate differences are below 2^-138
+    return max(abs(c) for c in cs) >= min(diffs) * 2.0 ** (p - 5) or min(diffs) <= 16 * 2.0 ** -142
 
 def split_coarse_rounding(case, tag, event):
     """add_constraint_and_split where the spacing of the scalar type is comparable to the distances between the vertices: a split vertex is
@@ -197,7 +199,9 @@ def split_coarse_rounding(case, tag, event):
     if not any(o.split()[0] == "split" for o in case.ops) or not _coarse(case):
         return False
     if tag == "panic":
-        return event is not None and "is_ordered_ccw" in event
+        # (M8) "Failed to locate position": point location of a LATER operation walks into the inverted face left by an earlier split
+        return event is not None and ("is_ordered_ccw" in event or
+                                      ("Failed_to_locate_position" in event and sum(1 for o in case.ops if o.split()[0] == "split") >= 2))
     if tag in ("split", "segspec", "noncross", "ncons"):
         # the piece of a crossed constraint behind a rounded split vertex is dropped when it would now cross another new piece
         return True
